@@ -26,7 +26,7 @@ type Worker struct {
 	Cl      *Cluster
 	Log     *EventLog
 	Clients map[string]*Client
-	expired map[uint64]bool
+	expired map[uint64]int // fragment -> the loop's iteration count (+1) when the harness let its deadline pass
 	Dead    bool
 	Unreal  int // stimuli that could not be applied
 }
@@ -54,7 +54,7 @@ func NewWorker(cfg *Config, tracePath string) (*Worker, error) {
 	if err != nil {
 		return nil, err
 	}
-	w := &Worker{Cfg: cfg, H: h, Cl: cl, Log: log, Clients: map[string]*Client{}, expired: map[uint64]bool{}}
+	w := &Worker{Cfg: cfg, H: h, Cl: cl, Log: log, Clients: map[string]*Client{}, expired: map[uint64]int{}}
 	if cfg.Mode == "step" {
 		if err := w.bootstrapStep(); err != nil {
 			return nil, err
@@ -548,15 +548,20 @@ func (w *Worker) apply(st *Stim) {
 			if n == 0 {
 				break
 			}
-			if w.expired[id] {
-				continue
+			if at := w.expired[id]; at > 0 {
+				// Every iteration ends with the timeout scan, which takes what has expired out of the tree.  A fragment
+				// that is still in flight and in the tree after an iteration has been re-armed (a redirect was read before
+				// the scan): its new deadline lies in the future again and can pass in its turn.
+				if !(inTree[id] && w.H.Steps+1 > at) {
+					continue
+				}
 			}
 			t, ok := w.Cl.keyTok(keyOf[id])
 			if !ok {
 				continue
 			}
 			core.VerifExpire(id) // no effect if the fragment has no deadline (which the monitor will then expose)
-			w.expired[id] = true
+			w.expired[id] = w.H.Steps + 1
 			n--
 			w.Log.Add(Event{Ev: "expire", Fid: fmt.Sprintf("%s.%d.%s", t.C, t.I, t.S), C: t.C, I: t.I, Slots: []string{t.S}})
 		}
@@ -591,8 +596,8 @@ func (w *Worker) apply(st *Stim) {
 			}
 		}
 		for _, f := range f0 {
-			if t, ok := w.Cl.keyTok(f.key); ok && !w.expired[f.id] {
-				w.expired[f.id] = true
+			if t, ok := w.Cl.keyTok(f.key); ok && w.expired[f.id] == 0 {
+				w.expired[f.id] = w.H.Steps + 1
 				w.Log.Add(Event{Ev: "expire", Fid: fmt.Sprintf("%s.%d.%s", t.C, t.I, t.S), C: t.C, I: t.I, Slots: []string{t.S}})
 			}
 		}
@@ -979,7 +984,7 @@ func (w *Worker) reset() {
 		w.Cl.Pump()
 	}
 	w.Clients = map[string]*Client{}
-	w.expired = map[uint64]bool{}
+	w.expired = map[uint64]int{}
 	w.Log.Tid = saveTid
 }
 
